@@ -53,10 +53,10 @@ theorem no_calls_left :
 def restGroups : List Grp := [memc, stack, locals, sleep]
 
 /-- **mj_forward** (no sleeping, any other flags): everything read before being determined is integration
-    state (or an allocation constant / the empty stack). -/
+    state (or an allocation constant / the empty stack / a function local). -/
 theorem forward_inputs_subset_state :
     (analyze {} mjForward).bad = [] ∧
-    subset (analyze {} mjForward).rbw (stateGroups ++ [memc, stack]) = true := by decide +kernel
+    subset (analyze {} mjForward).rbw (stateGroups ++ [memc, stack, locals]) = true := by decide +kernel
 
 /-- **mj_step**, all four integrators and the unknown-integrator join (no sleeping): inputs ⊆ integration
     state ∪ rest groups. -/
@@ -169,12 +169,12 @@ example : Extends (D := Grp → Nat)
     output group of `forwardOutputs`, whatever else they contained. -/
 theorem forward_deterministic (fuel : Nat) (M : MEnv) (S : Sem (Grp → V))
     (hK : Extends M S (known {})) (hR : Respects (ctx false) S mjForward)
-    (d d' : Grp → V) (hag : Agree (stateGroups ++ [memc, stack]) d d') :
+    (d d' : Grp → V) (hag : Agree (stateGroups ++ [memc, stack, locals]) d d') :
     (run fuel M S [] mjForward d).1 = (run fuel M S [] mjForward d').1 ∧
     ((run fuel M S [] mjForward d).1 = .norm →
       Agree (stateGroups ++ forwardOutputs) (run fuel M S [] mjForward d).2 (run fuel M S [] mjForward d').2) := by
   have h := run_noninterference {} mjForward fuel M S hK hR forward_inputs_subset_state.1
-    (stateGroups ++ [memc, stack]) forward_inputs_subset_state.2 d d' hag
+    (stateGroups ++ [memc, stack, locals]) forward_inputs_subset_state.2 d d' hag
   refine ⟨h.1, ?_⟩
   intro hn
   obtain ⟨k, hk, hsub⟩ := forward_determines_outputs
@@ -225,7 +225,7 @@ def copyState (src dst : Grp → V) : Grp → V := fun g => if g ∈ stateGroups
     same model at rest, mj_forward gives the outputs it gives on `src`. -/
 theorem forward_after_copyState (fuel : Nat) (M : MEnv) (S : Sem (Grp → V))
     (hK : Extends M S (known {})) (hR : Respects (ctx false) S mjForward)
-    (src dst : Grp → V) (hrest : Agree [memc, stack] src dst) :
+    (src dst : Grp → V) (hrest : Agree [memc, stack, locals] src dst) :
     (run fuel M S [] mjForward src).1 = (run fuel M S [] mjForward (copyState src dst)).1 ∧
     ((run fuel M S [] mjForward src).1 = .norm →
       Agree (stateGroups ++ forwardOutputs) (run fuel M S [] mjForward src).2
